@@ -63,7 +63,7 @@ def validName (n : String) : Bool := n.length > 0 && n.length ≤ 256
 /-- ops executed identically by every process (applied once per step) -/
 def isGlobal (op : String) : Bool :=
   ["create", "open", "close", "abort", "enddef", "enddef2", "redef", "sync", "flush", "sync_numrecs", "begin_indep",
-   "end_indep", "barrier", "def_dim", "def_var", "put_att", "del_att", "rename_att", "copy_att", "rename_var",
+   "end_indep", "barrier", "def_dim", "def_var", "put_att", "put_attm", "del_att", "rename_att", "copy_att", "rename_var",
    "rename_dim", "set_fill", "def_var_fill", "fill_var_rec"].contains op
 
 def writeGuard (w : World) : Option Int :=
@@ -164,6 +164,32 @@ def globalOp (w : World) (t : List String) : World × String :=
         else (setAtts w tgt (atts.set i newA), "0")
       | none =>
         if !inDefine w then (w, s!"{NC_ENOTINDEFINE}") else (setAtts w tgt (atts ++ [newA]), "0")
+  | "put_attm" :: var :: name :: xt :: mt :: n :: vals =>
+    -- typed API: every element converted memory type -> external type; an unrepresentable element becomes the
+    -- type's default fill value, the call returns NC_ERANGE and the attribute is stored all the same
+    match writeGuard w with
+    | some e => (w, s!"{e}")
+    | none =>
+    match attTarget w var with
+    | none => (w, s!"{NC_ENOTVAR}")
+    | some tgt =>
+      let x := xtOf xt
+      let cnt := n.toNat?.getD 0
+      if !validName name then (w, s!"{NC_EBADNAME}") else
+      if x < 1 || x > 11 || (w.fmt != 5 && x > 6) then (w, s!"{NC_EBADTYPE}") else
+      if echar x mt then (w, s!"{NC_ECHAR}") else
+      let conv := ((vals.take cnt).filterMap String.toInt?).map (convPut w.fmt x mt (defaultFill x))
+      let vs := conv.map (·.1)
+      let rc : Int := if conv.any (·.2) then NC_ERANGE else 0
+      let atts := getAtts w tgt
+      let newA : SAtt := ⟨name, x, vs⟩
+      match findIdx? (fun a : SAtt => a.name == name) atts with
+      | some i =>
+        let old := atts.getD i default
+        if !inDefine w && vs.length * xsize x > old.vals.length * xsize old.xtype then (w, s!"{NC_ENOTINDEFINE}")
+        else (setAtts w tgt (atts.set i newA), s!"{rc}")
+      | none =>
+        if !inDefine w then (w, s!"{NC_ENOTINDEFINE}") else (setAtts w tgt (atts ++ [newA]), s!"{rc}")
   | ["del_att", var, name] =>
     match writeGuard w with
     | some e => (w, s!"{e}")
@@ -460,6 +486,20 @@ def localOp (w : World) (r : Nat) (t : List String) : World × String :=
       | some a =>
         if a.xtype == 2 then (w, s!"0 2 {a.vals.length} {hexOfBytes a.vals}")
         else (w, (s!"0 {a.xtype} {a.vals.length} " ++ String.intercalate " " (a.vals.map (fun x => showVal (some x)))).trimAscii.toString)
+  | ["get_attm", var, name, mt] =>
+    match attTarget w var with
+    | none => (w, s!"{NC_ENOTVAR}")
+    | some t =>
+      match (getAtts w t).find? (fun a => a.name == name) with
+      | none => (w, s!"{NC_ENOTATT}")
+      | some a =>
+        if echar a.xtype mt then (w, s!"{NC_ECHAR} {a.xtype} {a.vals.length}") else
+        -- src/dispatchers/attr_getput.m4 hands `long` to the driver as MPI_LONG_LONG_INT (8-byte long): the value
+        -- substituted for an unrepresentable element is NC_FILL_INT64, not NC_FILL_INT as in the variable path
+        let mt := if mt == "long" then "longlong" else mt
+        let conv := a.vals.map (convGet w.fmt a.xtype mt)
+        let rc : Int := if conv.any (·.2) then NC_ERANGE else 0
+        (w, (s!"{rc} {a.xtype} {a.vals.length} " ++ String.intercalate " " (conv.map (fun c => showVal (some c.1)))).trimAscii.toString)
   | ["inq_format"] => (w, s!"0 {w.fmt}")
   | op :: rname :: form :: rest =>
     if op == "iput" || op == "iget" || op == "bput" then
